@@ -76,6 +76,10 @@ type Run struct {
 	trace    bool
 	full     []string
 	start    time.Time
+	cut      func(reason string)
+	cutTimer *time.Timer
+	endSim   int64 // simulated ns at which the bubble ended; -1 while it runs
+	lastT    int64 // simulated ns of the last logged event
 	Viol     []Violation
 	faults   map[string]int64
 	probes   map[string]int64
@@ -112,6 +116,7 @@ func newRun(base, index uint64, scenario, tier string, suppress []string, trace 
 	r.probes = make(map[string]int64)
 	r.tail = make([]string, tailLen)
 	r.hash = 0xcbf29ce484222325
+	r.endSim = -1
 	return r
 }
 
@@ -237,14 +242,19 @@ func (r *Run) SetCfg(k string, v any) {
 }
 
 // Now is the simulated time since the start of the run.
-func (r *Run) Now() time.Duration { return time.Since(r.start) }
+func (r *Run) Now() time.Duration {
+	if r.endSim >= 0 {
+		return time.Duration(r.endSim)
+	}
+	return time.Since(r.start)
+}
 
 // Logf appends an event to the run's event log (hash + tail).  It never draws
 // from a PRNG and reads only the simulated clock.
 func (r *Run) Logf(format string, a ...any) {
 	s := fmt.Sprintf(format, a...)
 	r.mu.Lock()
-	t := int64(time.Since(r.start))
+	t := int64(r.Now())
 	h := r.hash
 	h ^= uint64(t)
 	h *= 0x100000001b3
@@ -253,6 +263,7 @@ func (r *Run) Logf(format string, a ...any) {
 		h *= 0x100000001b3
 	}
 	r.hash = h
+	r.lastT = t
 	r.nEvents++
 	line := fmt.Sprintf("%12.6f %s", float64(t)/1e9, s)
 	r.tail[r.tailPos%tailLen] = line
@@ -278,10 +289,23 @@ func (r *Run) Violate(class, format string, a ...any) {
 	r.Logf("VIOLATION %s: %s", class, msg)
 	r.mu.Lock()
 	if len(r.Viol) < 8 {
-		r.Viol = append(r.Viol, Violation{Class: class, Msg: msg, At: int64(time.Since(r.start))})
+		r.Viol = append(r.Viol, Violation{Class: class, Msg: msg, At: int64(r.Now())})
+	}
+	arm := r.cut != nil && r.cutTimer == nil && r.endSim < 0
+	if arm {
+		// a run that has already shown a violation is cut 30 simulated minutes later if it is
+		// still going: code that is broken enough to violate the property may also never
+		// finish, and that must be reported as the violation, not as harness trouble
+		cut := r.cut
+		r.cutTimer = time.AfterFunc(30*time.Minute, func() { cut("30 simulated minutes after the first violation") })
 	}
 	r.mu.Unlock()
 }
+
+// OnCut, when set, receives the result of a run that is abandoned while its bubble is still
+// running (simulated-time cap with a violation on record, or the post-violation cut).  It
+// must not return: the goroutines of the run cannot be stopped, the process has to end.
+var OnCut func(res *Result)
 
 // Failed reports whether a violation was recorded.
 func (r *Run) Failed() bool {
@@ -394,6 +418,7 @@ type Result struct {
 	Sample    []string         `json:"sample,omitempty"`
 	Leaked    int              `json:"leaked"`
 	Deadlock  string           `json:"deadlock,omitempty"`
+	Cut       string           `json:"cut,omitempty"` // the run was abandoned while still going (see OnCut)
 	Stacks    string           `json:"stacks,omitempty"`
 	WallNS    int64            `json:"wall_ns"`
 	Suppress  []string         `json:"suppress,omitempty"`
@@ -535,11 +560,27 @@ func Execute(sc *Scenario, base, index uint64, tier string, suppress []string, t
 			if capSim == 0 {
 				capSim = 72 * time.Hour
 			}
-			capTimer := time.AfterFunc(capSim, func() {
+			r.cut = func(reason string) {
+				if r.Failed() && OnCut != nil {
+					r.Logf("run cut: %s", reason)
+					res.SimNS = int64(time.Since(r.start))
+					res.Cut = reason
+					r.fill(res, true)
+					OnCut(res)
+				}
 				os.Stderr.WriteString(fmt.Sprintf("sim: simulated-time cap exceeded in scenario %s run %d (seed %d)\n", sc.Name, index, base))
 				os.Exit(4)
-			})
+			}
+			capTimer := time.AfterFunc(capSim, func() { r.cut("simulated-time cap") })
 			defer capTimer.Stop()
+			defer func() {
+				r.mu.Lock()
+				if r.cutTimer != nil {
+					r.cutTimer.Stop()
+				}
+				r.cut = nil
+				r.mu.Unlock()
+			}()
 			defer func() {
 				if e := recover(); e != nil {
 					buf := make([]byte, 16384)
@@ -549,8 +590,14 @@ func Execute(sc *Scenario, base, index uint64, tier string, suppress []string, t
 			}()
 			sc.Fn(r)
 			res.SimNS = int64(time.Since(r.start))
+			r.endSim = res.SimNS
 		})
 	}()
+	if r.endSim < 0 {
+		// the bubble ended abnormally: everything logged from here on (outside the bubble,
+		// where time.Now is the real clock) is stamped with the time of the last event
+		r.endSim = r.lastT
+	}
 	common.VerifYieldHook = nil
 	debug.SetGCPercent(old)
 	if sc.After != nil && deadlock == "" {
@@ -572,6 +619,11 @@ func Execute(sc *Scenario, base, index uint64, tier string, suppress []string, t
 			r.Viol = append(r.Viol, Violation{Class: sc.LeakClass, Msg: fmt.Sprintf("%d goroutine(s) never finished: %s", leaked, strings.Join(tops, ", "))})
 		}
 	}
+	r.fill(res, trace)
+	return res
+}
+
+func (r *Run) fill(res *Result, trace bool) {
 	res.Hash = fmt.Sprintf("%016x", r.hash)
 	res.Events = r.nEvents
 	res.Faults = r.faults
@@ -586,5 +638,4 @@ func Execute(sc *Scenario, base, index uint64, tier string, suppress []string, t
 		res.Fired = r.Fired
 		res.Tail = r.Tail()
 	}
-	return res
 }
